@@ -34,4 +34,15 @@ theorem dvalS_eq (s : St) (o : DOperand) : ∀ sg : Int,
   | reg r => intro sg; simp [DOperand.valS, dMinusCount, dUnsignedValue]
   | coef k r => intro sg; simp [DOperand.valS, dMinusCount, dUnsignedValue, Int.mul_assoc]
 
+theorem rat_mul_eq_iff (q a b : Rat) (hq : 0 < q) : q * a = q * b ↔ a = b := by
+  constructor
+  · intro h
+    have h1 : ¬ a < b := fun hl => by have := (Rat.mul_lt_mul_left hq).2 hl; rw [h] at this; exact Rat.lt_irrefl this
+    have h2 : ¬ b < a := fun hl => by have := (Rat.mul_lt_mul_left hq).2 hl; rw [h] at this; exact Rat.lt_irrefl this
+    exact Rat.le_antisymm (Rat.not_lt.1 h2) (Rat.not_lt.1 h1)
+  · intro h; rw [h]
+
+theorem relVerdict_scale (c : Nat) (q a b : Rat) (hq : 0 < q) : relVerdict c (q * a) (q * b) = relVerdict c a b := by
+  simp only [relVerdict, Rat.mul_lt_mul_left hq, rat_mul_eq_iff q a b hq]
+
 end PlasVerif.Proofs.TeXTests
